@@ -105,6 +105,7 @@ func cmdVerify(args []string) {
 		sort.Strings(keys)
 	}
 	bad := 0
+	os.RemoveAll(envOr("VERIF_OUT", "/verif/out") + "/smt/dev") // scratch of earlier dev runs
 	for _, k := range keys {
 		t0 := time.Now()
 		r := v.VerifyFunc(k)
